@@ -52,6 +52,16 @@ func (l *txList) Overlaps(tx *types.Transaction) bool {
 	return l.txs.Get(tx.Nonce()) != nil
 }
 
+// canReplace reports whether tx carries the price bump Add requires to replace
+// the same-nonce transaction old.
+func canReplace(old, tx *types.Transaction, priceBump uint64) bool {
+	// threshold = oldGP * (100 + priceBump) / 100
+	a := big.NewInt(100 + int64(priceBump))
+	a = a.Mul(a, old.GasPrice())
+	threshold := a.Div(a, big.NewInt(100))
+	return old.GasPriceCmp(tx) < 0 && tx.GasPriceIntCmp(threshold) >= 0
+}
+
 // Add tries to insert a new transaction into the list, returning whether the
 // transaction was accepted, and if yes, any previous transaction it replaced.
 //
